@@ -65,3 +65,35 @@ pub fn compile(case: &Value) -> Value {
         }
     }
 }
+
+/// `{src, dedup?, kind?: "ssa"|"reg", inputs: [[party bits,…],…]}` → `{ok, outs: [bits…]}`:
+/// compiles once and evaluates the circuit on every given input (raw bits per party).
+pub fn compile_eval(case: &Value) -> Value {
+    let src = case["src"].as_str().unwrap_or("");
+    let dedup = case["dedup"].as_bool().unwrap_or(true);
+    let reg = case["kind"].as_str() == Some("reg");
+    match compile_src(src, dedup) {
+        Err(p) => json!({"ok": false, "stage": "panic", "detail": p}),
+        Ok(Err(e)) => {
+            let (stage, n) = err_stage(&e);
+            json!({"ok": false, "stage": stage, "n": n})
+        }
+        Ok(Ok(mut prg)) => {
+            if reg {
+                if let Err(p) = guarded(|| prg.circuit.to_register()) {
+                    return json!({"ok": false, "stage": "panic", "detail": p});
+                }
+            }
+            let mut outs = vec![];
+            for ins in case["inputs"].as_array().cloned().unwrap_or_default() {
+                let ins = inputs_of(&ins);
+                match guarded(|| prg.circuit.eval(&ins)) {
+                    Ok(bits) => outs.push(bits_to_string(&bits)),
+                    Err(p) => outs.push(format!("panic@{p}")),
+                }
+            }
+            let sizes: Vec<usize> = prg.circuit.input_lengths().collect();
+            json!({"ok": true, "outs": outs, "input_gates": sizes, "ands": prg.circuit.ands(), "ops": prg.circuit.ops()})
+        }
+    }
+}
